@@ -389,15 +389,26 @@ SIG_OF_INV = {"EndAllowed": "propagateTo-steps-lost", "StepAllowed": "propagateT
               "StopsOnlyWhenNoStepFits": "propagateTo-steps-lost"}
 
 
-def _validate_durations(ctx: Ctx, runs, idx):
+def _validate_durations(ctx: Ctx, runs, idx, selftest=True):
     """impl -> spec: TLC decides every recorded run against TraceDurations.tla."""
     d = ctx.sub("trace_durations")
     traces = [_project_run(r, idx) for r in runs]
+    # binding self-test: two corrupted copies of one real trace (a step event removed = a missing
+    # wrapper; a logged clock value changed) ride along and must be rejected
+    n_real = len(traces)
+    src = next((j for j, t in enumerate(traces) if sum(e["e"] == "step" for e in t["ev"]) >= 2), None) if selftest else None
+    if src is not None:
+        import copy
+        a, b = copy.deepcopy(traces[src]), copy.deepcopy(traces[src])
+        a["ev"].pop(next(j for j, e in enumerate(a["ev"]) if e["e"] == "step"))
+        last = [e for e in b["ev"] if e["e"] == "step"][-1]
+        last["clockMs"] += 1000
+        traces += [a, b]
     (d / "traces.json").write_text(json.dumps(traces))
     res = tlc.run_tlc("TraceDurations", "TraceDurations.cfg", d, workers=min(4, ctx.cpus), cont=True,
                       env={"TRACE_FILE": "traces.json"}, timeout=1500)
     tlc.require_ok(res, "TraceDurations")
-    ctx.add_tlc(res, f"trace validation of {len(traces)} real timed runs against Durations.tla")
+    ctx.add_tlc(res, f"trace validation of {n_real} real timed runs against Durations.tla")
     accepted = {t[0] for t in res.tuples("ACCEPTED")}
     rejected = {}
     for inv, states in res.invariant_violations:
@@ -405,6 +416,16 @@ def _validate_durations(ctx: Ctx, runs, idx):
         if tid is None:
             raise tlc.MachineryError(f"TraceDurations: cannot attribute violation of {inv}:\n" + "\n".join(states[-1:]))
         rejected.setdefault(tid, []).append(inv)
+    if src is not None:
+        if (src + 1) in accepted:
+            bad = [j for j in (n_real + 1, n_real + 2) if j not in rejected]
+            if bad:
+                raise tlc.MachineryError(f"TraceDurations accepted a corrupted trace (binding self-test): {bad}")
+            ctx.extra["binding_mutants_rejected"] = {"step-event-removed": sorted(set(rejected[n_real + 1])),
+                                                     "clock-field-corrupted": sorted(set(rejected[n_real + 2]))}
+        rejected.pop(n_real + 1, None), rejected.pop(n_real + 2, None)
+        accepted -= {n_real + 1, n_real + 2}
+        traces = traces[:n_real]
     for tid, invs in sorted(rejected.items()):
         t = runs[tid - 1]
         for inv in sorted(set(invs)):
@@ -417,7 +438,7 @@ def _validate_durations(ctx: Ctx, runs, idx):
     missing = [i for i in range(1, len(traces) + 1) if i not in accepted and i not in rejected]
     if missing:
         raise tlc.MachineryError(f"TraceDurations: traces neither accepted nor rejected: {missing[:10]}\n" + res.stdout[-1500:])
-    ctx.traces_validated += len(traces)
+    ctx.traces_validated += n_real
     return accepted, rejected, traces
 
 
